@@ -74,8 +74,16 @@ LANG_ARGS = {"typescript": [], "kotlin": ["--java-package", "com.x"], "swift": [
              "go": ["--go-package", "p"], "python": []}
 
 
+# unreadable paths: made after the tree is written (path relative to the tree root, kind, target)
+SPECIAL = {
+    "dangling_symlink": ("crate_a/src/dangling.rs", "symlink", "missing_target.rs"),
+    "symlink_loop_dir": ("crate_a/src/loop", "symlink", ".."),
+    "dir_named_rs": ("crate_a/src/fake.rs/inner.rs", "file", "#[typeshare]\npub struct Inner { pub a: u32 }\n"),
+}
+
+
 def tree_for(v):
-    files = {"crate_a/src/edge.rs": CONSTRUCTS[v["construct"]]}
+    files = {"crate_a/src/edge.rs": CONSTRUCTS.get(v["construct"], CONSTRUCTS["ok_struct"])}
     comp = v["companion"]
     if comp in ("good", "good_and_bad"):
         files["crate_b/src/good.rs"] = GOOD.format(name="Good")
@@ -93,6 +101,15 @@ def run_vector(work, idx, v, trace=True):
     d = os.path.join(work, f"v{idx}")
     files = tree_for(v)
     cli.make_tree(d, files)
+    if v["construct"] in SPECIAL:
+        rel, kind, arg = SPECIAL[v["construct"]]
+        os.makedirs(os.path.dirname(os.path.join(d, rel)), exist_ok=True)
+        if kind == "symlink":
+            os.symlink(arg, os.path.join(d, rel))
+        else:
+            open(os.path.join(d, rel), "w").write(arg)
+        if v["construct"] != "symlink_loop_dir":      # a directory link is not followed: it is no work item of the walker
+            files = dict(files, **{rel: ""})       # the diagnostic may name this path
     out = os.path.join(d, "out")
     args = ["-l", v["lang"]] + (LANG_ARGS[v["lang"]] if v.get("packages", "given") == "given" else [])
     if v["mode"] == "single":
@@ -109,7 +126,7 @@ def run_vector(work, idx, v, trace=True):
     r = cli.run_cli(args, env=env, timeout=WATCHDOG)
     written = [f for f in cli.snapshot(out)] if os.path.isdir(out) else []
     stems = {os.path.splitext(os.path.basename(f))[0] for f in files}
-    names = {"Edge": "edge", "EDGE": "edge", "Good": "good", "ZGood": "zgood", "Événement": "edge"}
+    names = {"Edge": "edge", "EDGE": "edge", "Good": "good", "ZGood": "zgood", "Événement": "edge", "Inner": "inner"}
     header, events = cli.read_trace(tr, stems, names, 2, 100, r["code"] if r["exit"] != "timeout" else None) if trace else (None, [])
     return r, written, header, events, files
 
@@ -350,7 +367,7 @@ def run(chk):
     chk.add_tlc("MC_C07", res)
     chk.exhaustive = True
     vectors = res.replays
-    unknown = {v["construct"] for v in vectors} - set(CONSTRUCTS)
+    unknown = {v["construct"] for v in vectors} - set(CONSTRUCTS) - set(SPECIAL)
     if unknown:
         raise ToolError(f"no rendering for constructs {unknown}")
     import concurrent.futures as cf
@@ -361,6 +378,8 @@ def run(chk):
             v = futs[fu]
             r, written, header, events, files = fu.result()
             problem_files = ["edge.rs"] + (["bad.rs"] if v["companion"] in ("bad", "good_and_bad") else [])
+            if v["construct"] in SPECIAL:
+                problem_files.append(os.path.basename(SPECIAL[v["construct"]][0]))
             oc = judge_vector(chk, v, r, written, problem_files)
             outcomes[oc.split("@")[0]] = outcomes.get(oc.split("@")[0], 0) + 1
             if oc == "exit0" and not written and v["construct"] not in ("empty_file_marker",):
@@ -384,7 +403,8 @@ def replay(chk, rec):
     if "vector" in c:
         v = c["vector"]
         r, written, header, events, files = run_vector(work, 0, v)
-        judge_vector(chk, v, r, written, ["edge.rs"] + (["bad.rs"] if v["companion"] in ("bad", "good_and_bad") else []))
+        judge_vector(chk, v, r, written, ["edge.rs"] + (["bad.rs"] if v["companion"] in ("bad", "good_and_bad") else []) +
+                     ([os.path.basename(SPECIAL[v["construct"]][0])] if v["construct"] in SPECIAL else []))
         chk.mismatches = {(rec["signature"] if k.split("/")[1] == rec["signature"].split("/")[1] else k): m for k, m in chk.mismatches.items()}
     elif "schedule" in c:
         replay_model_schedules(chk, work)
